@@ -18,6 +18,7 @@ import RotoV.Model.Unify
 import RotoV.Lemmas.TcRules
 import RotoV.Lemmas.Unify
 import RotoV.Lemmas.TypingMono
+import RotoV.Lemmas.TypingProg
 
 namespace RotoV.C07
 open RotoV.Typing RotoV.TcRules
@@ -131,6 +132,26 @@ theorem declarative_fn_monotone_partial (env : Env) (henv : envGround env = true
     (h : checkDecl env p (.fn n params rt body') = .ok ()) :
     checkDecl env p (.fn n params rt body) = .ok () :=
   checkDecl_fn_mono env henv p n params rt body body' hf h
+
+/-- the same for a whole program (`checkProg`: unique item names, every
+    function, constant — including the "constants are not recursive" rule —
+    and type declaration): if a completion of the script passes, the script as
+    written passes; so a script the declarative checker rejects has no
+    completion that passes. `FillsP` relates declaration lists item by item:
+    same signatures and type declarations, bodies and initialisers filled in. -/
+theorem declarative_program_monotone_partial (p p' : Prog) (h : FillsP p p')
+    (hok : checkProg p' = .ok ()) : checkProg p = .ok () :=
+  checkProg_mono p p' h hok
+
+theorem declarative_program_rejection_sound_partial (p : Prog) (hrej : accepts p = false)
+    (p' : Prog) (h : FillsP p p') : accepts p' = false := by
+  unfold accepts at hrej ⊢
+  cases hp' : checkProg p' with
+  | error err => rfl
+  | ok u =>
+    cases u
+    rw [declarative_program_monotone_partial p p' h hp'] at hrej
+    cases hrej
 
 /-- non-vacuity: `let x = 5; x + 1u8` is accepted through its completion
     `let x: u8 = 5u8; x + 1u8`, and `5 + true` is rejected -/
